@@ -54,14 +54,14 @@ pub fn corr(ctx: &mut Ctx, family: &str) {
                 results.push(("SuperMinHash2".into(), cname.into(), t.unwrap_or_else(|e| format!("PANIC {}", e))));
             }
             if family == "ssk" {
-                for (b, wide) in [(1.2f64, false), (1.001, true)] {
+                for (b, wide, q16) in [(1.2f64, false, 65534u64), (1.001, true, 0), (1.0001, false, 1 << 17)] {
                     let t = catch(std::panic::AssertUnwindSafe(|| {
                         if wide { let mut s = crate::ssk::new32((b, m as u64, 20.0, 1 << 20)); for p in &parts { if p.len() == 1 { s.sketch(&p[0]).unwrap(); } else { s.sketch_slice(p).unwrap(); } }
                                   format!("{} | {:?}", join(&s.get_signature().iter().map(|x| *x as u64).collect::<Vec<_>>()), s.get_cardinal_stats().0.to_bits()) }
-                        else { let mut s = crate::ssk::new16((b, m as u64, 20.0, 65534)); for p in &parts { if p.len() == 1 { s.sketch(&p[0]).unwrap(); } else { s.sketch_slice(p).unwrap(); } }
+                        else { let mut s = crate::ssk::new16((b, m as u64, 20.0, q16)); for p in &parts { if p.len() == 1 { s.sketch(&p[0]).unwrap(); } else { s.sketch_slice(p).unwrap(); } }
                                   format!("{} | {:?}", join(&s.get_signature().iter().map(|x| *x as u64).collect::<Vec<_>>()), s.get_cardinal_stats().0.to_bits()) }
                     }));
-                    results.push((format!("SetSketcher b={}", b), cname.into(), t.unwrap_or_else(|e| format!("PANIC {}", e))));
+                    results.push((format!("SetSketcher b={} q={}", b, q16), cname.into(), t.unwrap_or_else(|e| format!("PANIC {}", e))));
                 }
             }
             if family == "dens" {
